@@ -40,6 +40,9 @@ var allocOnlyFuncs = map[string]bool{"errors.New": true, "fmt.Errorf": true}
 // isPureModuleFunc: a module function with no side effects (no stores to memory it did not allocate, no
 // calls except to pure functions, no map updates). firstSet is the typical instance.
 func (a *Analysis) isPureModuleFunc(fn *ssa.Function) bool {
+	if a.Opaque != nil && a.Opaque(fn) {
+		return false
+	}
 	if v, ok := a.pureMemo[fn]; ok {
 		return v
 	}
